@@ -12,6 +12,7 @@ import graphs as gr
 from c02_gen import exhaustive_histories, random_history, ALPHABET_DOC
 
 PROP = "C02"
+ALL_SEL = 4
 LNAMES = ["directed", "bidirected", "undirected", "extra"]
 AK = ["a0", "a1"]
 SPOT_N = 12
@@ -21,7 +22,8 @@ RULE = ("histories of public mutations on MixedEdgeGraph() and ADMG(), universe 
         "names {directed,bidirected,undirected,extra} of both kinds; exhaustive over a reduced alphabet (" + ALPHABET_DOC + "), "
         "then seeded random walks (incl. clear() and self loops) biased to query-then-add-layer, remove-then-re-add, copy-then-mutate; after every op all "
         "read queries of the touched object and the raw state of every live object are compared with the extracted model; "
-        "distinct by op list; non-trivial = the final store holds an edge and at least one op was rejected or a second "
+        "bulk / subgraph arguments as list, tuple, generator, set, frozenset, dict keys, str; own label families coincide (container == label) and obj (identity-hashed); a decoy graph runs through all methods before every case (cross-call state); held "
+        "iterators as in ASSUMPTIONS; distinct by op list; non-trivial = the final store holds an edge and at least one op was rejected or a second "
         "object was allocated")
 EXHAUSTIVE = {"quick": "all histories of length <= 2 over the reduced alphabet, both classes (length 3: seeded sample)",
               "thorough": "all histories of length <= 3 over the reduced alphabet, both classes (length 4: seeded sample)"}
@@ -35,6 +37,14 @@ ASSUMPTIONS = ["attribute keys a0,a1 with values 0..3; node labels ints (label f
                "aliasing through that argument is not part of C02 and not tested",
                "subgraph is called with nodes present in the graph; its node/edge attributes are not compared "
                "(accepted empty or equal to the parent's, then normalised to empty)",
+               "iterator-valued answers: neighbors(n) taken before an op (one element consumed) and finished after it must give "
+               "the neighbourhood at the time of the call, or raise RuntimeError (networkx's contract for a live dict iterator "
+               "whose dict changed) - never a mixture of two states; the nodes view is live (networkx view contract) and must "
+               "show the node set at consumption time. edges()/adj return a fresh dict of live per-layer networkx views per call; "
+               "holding those across an op is networkx's live-view contract and is not compared",
+               "node containers are ITERATED (docstrings: 'a container of nodes which will be iterated through'), also when "
+               "the container object equals a node label (tuple / str / frozenset labels); nbunch-style single-node-or-container "
+               "arguments of edges(nbunch)/degree(nbunch) are delegated to networkx and not varied",
                "exception-vs-no-exception is compared only for edge operations on an absent edge type (documented error) "
                "and for well-formed calls (must not raise)"]
 LEVEL_TEXT = ("Coq theorems, all UNBOUNDED over histories (induction on the op list, any length, any interleaving, both initial "
@@ -84,6 +94,28 @@ def gen_cases(tier, rng):
             init.append([nm, rng.randint(0, 1), es])
         ops = [[11, 0, []]] + random_history(rng, 0, rng.choice([0, 3, 10]))
         yield {"kind": "ctor", "cls": 0, "N": 4, "init": init, "ops": ops}
+    # label families of its own: "coincide" (a tuple / str / frozenset container of nodes equals another node's label;
+    # universe of 5) and "obj" (identity-hashed label objects: copy / subgraph must keep the very same node objects)
+    for i in range(300 if quick else 3000):
+        fam = "coincide" if i % 3 else "obj"
+        N = 5 if fam == "coincide" else 4
+        yield {"kind": fam, "cls": i % 2, "N": N, "_lab": fam, "ops": random_history(rng, i % 2, 15, N=N)}
+    # aimed at containers that equal a label: nodes a, b, ('a','b'), 'ab', frozenset('ab') all present, a-b joined in
+    # some layers, then subgraph / remove_nodes_from / add_nodes_from called with the tuple / frozenset / str of a, b
+    for i in range(120 if quick else 1200):
+        cls = i % 2
+        pre = [[1, 0, [0, 1, 2, 3, 4], []]]
+        if not cls:
+            pre.append([9, 0, rng.randrange(4), rng.randint(0, 1), []])
+        pre.append([2, 0, 0, 1, rng.choice([ALL_SEL, ALL_SEL, 0, 1]), []])
+        for _ in range(rng.randint(0, 3)):
+            u, v = rng.sample(range(5), 2)
+            pre.append([2, 0, u, v, ALL_SEL, []])
+        fl = rng.choice([1, 4, 6])
+        ab = rng.choice([[0, 1], [0, 1], [1, 0]])
+        aim = rng.choice([[13, 0, ab, fl], [13, 0, ab, fl], [5, 0, ab, fl], [1, 0, ab, [[0, 1]], fl]])
+        yield {"kind": "coincide-aimed", "cls": cls, "N": 5, "_lab": "coincide",
+               "ops": pre + [aim] + random_history(rng, cls, rng.choice([0, 4]), N=5)}
     n_rand, length = (260, 25) if quick else (260, 200)
     for i in range(n_rand):
         cls = i % 2
@@ -289,21 +321,91 @@ def _bulk(key, items, flavour):
     """the bulk argument of add_nodes_from / remove_nodes_from / add_edges_from / remove_edges_from / subgraph as the
     container kind chosen by the op's optional trailing flavour (0 list, 1 tuple, 2 generator, 3 set where hashable);
     returns (argument, underlying list, snapshot of it) — the list must be unchanged after the call"""
-    import copy
     base = _ARGS.setdefault((key, repr(items)), items)
-    snap = copy.deepcopy(base)
-    if flavour == 1:
-        arg = tuple(base)
-    elif flavour == 2:
-        arg = (x for x in base)
-    elif flavour == 3:
-        try:
+    # labels are never copied (identity-hashed label objects), attribute dicts inside edge triples are
+    snap = [(tuple(dict(y) if isinstance(y, dict) else y for y in x) if isinstance(x, tuple) and key != "n" else x)
+            for x in base]
+    arg = base
+    try:
+        if flavour == 1:
+            arg = tuple(base)
+        elif flavour == 2:
+            arg = (x for x in base)
+        elif flavour == 3:
             arg = set(base)
-        except TypeError:
-            arg = base
-    else:
+        elif flavour == 4:
+            arg = frozenset(base)
+        elif flavour == 5:
+            arg = dict.fromkeys(base).keys()
+        elif flavour == 6 and base and all(isinstance(x, str) and len(x) == 1 for x in base):
+            arg = "".join(base)      # a str is a container of one-character node labels
+    except TypeError:
         arg = base
     return arg, base, snap
+
+
+def _labeler(case):
+    """label families of graphs.labeler plus the local family "coincide": the universe a, b, ('a','b'), 'ab',
+    frozenset('ab') — a tuple / str / frozenset CONTAINER of the nodes a, b equals the LABEL of another node"""
+    if (case or {}).get("_lab") == "coincide":
+        table = ["a", "b", ("a", "b"), "ab", frozenset("ab")]
+        back = {x: i for i, x in enumerate(table)}
+        return (lambda v: table[v]), (lambda x: back[x])
+    return gr.labeler(case)
+
+
+def _decoy():
+    """cross-call contamination: before every case a different graph (other nodes, one default edge type removed) goes
+    through the same methods in the same process; module- or class-level state it left behind would show in the case"""
+    from pywhy_graphs import ADMG
+    D = ADMG(decoy=1)
+    D.add_edges_from([("decoy1", "decoy2", {"a0": 9}), ("decoy2", "decoy3")], "directed", a1=9)
+    D.add_edge("decoy1", "decoy3", "all", a0=8)
+    D.remove_edge_type("undirected")
+    D.add_nodes_from(["decoy4"], a0=7)
+    C = D.copy()
+    S = D.subgraph(["decoy1", "decoy2"])
+    for X in (D, C, S):
+        X.size(), X.number_of_edges(), list(X.neighbors("decoy1")), X.degree(), X.edges(data=True), X.adj
+        X.to_undirected(), X.to_directed(), X.get_edge_data("decoy1", "decoy2")
+    C.remove_nodes_from(["decoy1"])
+    S.clear()
+
+
+def _hold(G, U):
+    """iterator-valued queries taken BEFORE the op: neighbors(n) with one element already consumed, the nodes view"""
+    held = {"nodes": G.nodes, "nbrs": {}}
+    for x in U:
+        if x in G:
+            try:
+                eager = set(G.neighbors(x))
+                it = G.neighbors(x)
+                first = [next(it)] if eager else []
+                held["nbrs"][x] = (eager, it, first)
+            except Exception:  # noqa
+                pass
+    return held
+
+
+def _check_held(G, held, U):
+    """consumed AFTER the op. neighbors(n): the neighbourhood at the time of the call (what the property's "answers
+    according to that edge set" means for an iterator handed out at that point) or RuntimeError (networkx's contract for
+    a live dict iterator whose dict changed); the nodes view: live (networkx view contract) = the node set now"""
+    for x, (eager, it, first) in held["nbrs"].items():
+        try:
+            got = set(first) | set(it)
+        except RuntimeError:
+            continue
+        except Exception:  # noqa   (an answer computed lazily after the op, on a node that is gone by now)
+            return "held-iterator:neighbors"
+        if got != eager:
+            return "held-iterator:neighbors"
+    try:
+        if set(held["nodes"]) != {x for x in U if G.has_node(x)} or len(held["nodes"]) != len(G):
+            return "held-view:nodes"
+    except RuntimeError:
+        pass
+    return None
 
 
 def _apply(objs, op, lab, N):
@@ -354,7 +456,7 @@ def _apply(objs, op, lab, N):
             G.clear()
         else:
             objs.append(None)
-            ns, base, snap = _bulk("n", [lab(n) for n in a[0] if lab(n) in G], 0)
+            ns, base, snap = _bulk("n", [lab(n) for n in a[0] if lab(n) in G], a[1] if len(a) > 1 else 0)
             H = G.subgraph(ns)
             if base != snap:
                 return None, "argument-mutated:subgraph"
@@ -385,8 +487,9 @@ def _apply(objs, op, lab, N):
 def run_impl(case):
     import pywhy_graphs.networkx as pywhy_nx
     from pywhy_graphs import ADMG
-    lab, inv = gr.labeler(case)
+    lab, inv = _labeler(case)
     N = case["N"]
+    _decoy()
     if case.get("init"):
         import networkx as nx
         gs = [(nx.DiGraph if kd else nx.Graph)([(lab(u), lab(v)) for u, v in es]) for nm, kd, es in case["init"]]
@@ -397,7 +500,11 @@ def run_impl(case):
     steps = []
     for op in case["ops"]:
         nb = len(objs)
+        tgt = objs[op[1]] if op[1] < nb else None
+        held = _hold(tgt, [lab(i) for i in range(N)]) if tgt is not None else None
         exc, note = _apply(objs, op, lab, N)
+        if held is not None and note is None:
+            note = _check_held(tgt, held, [lab(i) for i in range(N)])
         obs = []
         for i, G in enumerate(objs):
             if G is None:
